@@ -23,6 +23,7 @@ from sim import oracles as orc
 from sim import scenes
 from sim import workloads as wl
 from sim.core import Prng, mix
+from sim.identity import IdentitySeam
 from sim.history import HistoryViolation, Recorder, producer, run_machine, run_prng_producer
 
 PROP = "C07"
@@ -48,7 +49,7 @@ ASSUMPTIONS = [
     "semantics (sim/procstate.py); other module-level state is shared between simulated processes",
     "the 'fresh' reference is the same library on a cache stripped of trees and binning files",
 ]
-PROBES = ["rebuild_same_nbins", "closed_side_switch", "binned_to_unbinned", "unbinned_to_binned", "forced_rebuild", "measure_after_foreign_build", "reopen", "op_under_parallel_schedule", "second_handle_used"]
+PROBES = ["rebuild_same_nbins", "closed_side_switch", "binned_to_unbinned", "unbinned_to_binned", "forced_rebuild", "measure_after_foreign_build", "reopen", "op_under_parallel_schedule", "second_handle_used", "identities_recycled"]
 REAL_VS_STUB = dict(real="all of yaw (sequential), pickle, tmpfs", stub="none (Hypothesis generates the history)")
 
 # binning pool built to collide
@@ -89,6 +90,7 @@ def gen_cases(tier: str, verif_seed: int, runs: int | None = None) -> list[dict]
                 geometry=prng.choice(["box", "clumps"]),
                 scale=prng.choice(["deg", "kpc"]),
                 steps=8,
+                identity=["fifo", "lifo", "random"][i % 3],
             )
         )
     return cases
@@ -158,8 +160,110 @@ def _config(edges, closed, case=None):
     return wl.make_config(dict(scale, edges=list(edges), closed=closed))
 
 
+def measure_fn(case: dict, key: tuple):
+    """The measurement named by ``key`` as a function of (catalog handles, max_workers): the same
+    code serves the session under test and the reference process."""
+    import yaw
+
+    kind = key[0]
+    if kind == "cross":
+        _, pool_idx, randoms = key
+        cfg = _config(*POOL[pool_idx], case)
+
+        def fn(cats, mw):
+            rk = {}
+            if randoms & 1:
+                rk["ref_rand"] = cats["rref"]
+            if randoms & 2:
+                rk["unk_rand"] = cats["runk"]
+            cfs = yaw.crosscorrelate(cfg, cats["ref"], cats["unk"], max_workers=mw, **rk)
+            return [orc.corrfunc_state(cf) for cf in cfs]
+
+    elif kind == "auto":
+        _, pool_idx, which = key
+        cfg = _config(*POOL[pool_idx], case)
+        data, rand = (("ref", "rref"), ("unk", "runk"))[which]
+
+        def fn(cats, mw):
+            cfs = yaw.autocorrelate(cfg, cats[data], cats[rand], max_workers=mw)
+            return [orc.corrfunc_state(cf) for cf in cfs]
+
+    elif kind == "hist":
+        _, name, pool_idx = key
+        cfg = _config(*POOL[pool_idx], case)
+
+        def fn(cats, mw):
+            return orc.sampled_state(yaw.HistData.from_catalog(cats[name], cfg, max_workers=mw))
+
+    else:
+        raise ValueError(key)
+    return fn
+
+
+def _zy_fresh(case: dict, tpl: str, scratch: str, key: tuple):
+    """Reference process (a child of the pristine zygote): the measurement on data-only caches."""
+    import yaw
+
+    tmp = tempfile.mkdtemp(prefix="fresh-", dir=scratch)
+    try:
+        paths = scenes.copy_scene(tpl, os.path.join(tmp, "s"))
+        with scenes.sequential_mode():
+            cats = {n: yaw.Catalog(paths[n], max_workers=1) for n in scenes.CATS}
+            try:
+                return ("ok", measure_fn(case, key)(cats, 1))
+            except Exception as err:  # noqa: BLE001
+                return ("raises", type(err).__name__)
+    finally:
+        shutil.rmtree(tmp, ignore_errors=True)
+
+
+def _zy_invariant(paths: dict, dirty: list, ops: list, op: list):
+    """A new process looks at the caches the session left on disk: trees that a marker vouches for
+    equal a fresh build for the stored binning."""
+    import yaw
+    from yaw.catalog.trees import BinnedTrees, build_trees
+
+    with scenes.sequential_mode():
+        for name in scenes.CATS:
+            if name in dirty:
+                continue
+            try:
+                cat = yaw.Catalog(paths[name], max_workers=1)
+            except Exception:  # noqa: BLE001 - an unreadable cache is loud, not silent
+                continue
+            for pid, patch in cat.items():
+                bfile = os.path.join(str(patch.cache_path), "binning")
+                if not os.path.exists(bfile):
+                    continue
+                try:
+                    bt = BinnedTrees(patch)
+                    cached = bt.trees
+                except Exception:  # noqa: BLE001 - unreadable cache is an error at next use, not silent
+                    continue
+                try:
+                    fresh = build_trees(patch, bt.binning, leafsize=16)
+                except Exception:  # noqa: BLE001
+                    continue
+                c = cached if isinstance(cached, tuple) else (cached,)
+                f = fresh if isinstance(fresh, tuple) else (fresh,)
+                ok = isinstance(cached, tuple) == isinstance(fresh, tuple) and len(c) == len(f) and all(
+                    a.num_records == b.num_records and a.sum_weights == b.sum_weights and np.array_equal(a.data, b.data)
+                    for a, b in zip(c, f)
+                )
+                if not ok:
+                    return (
+                        dict(property=PROP, failing_rule=op[0], outcome="stale_trees"),
+                        f"after {ops}: {name}/patch_{pid} stores binning {bt.binning} but its trees.pkl holds "
+                        f"{[t.num_records for t in c]} records per tree, a fresh build gives {[t.num_records for t in f]}",
+                    )
+    return None
+
+
+ZYGOTE_HANDLERS = dict(fresh=_zy_fresh, invariant=_zy_invariant)
+
+
 class Model:
-    def __init__(self, case: dict, tpl: str, root: str, fresh_cache: dict, rec: Recorder | None = None) -> None:
+    def __init__(self, case: dict, tpl: str, root: str, fresh_cache: dict, rec: Recorder | None = None, zy=None) -> None:
         import yaw
 
         self.case = case
@@ -167,12 +271,17 @@ class Model:
         self.root = root
         self.fresh = fresh_cache  # memo shared by all examples of the case
         self.rec = rec or Recorder()
+        self.zy = zy
         self.ops: list = []
         self.outcomes: list = []
         from sim import procstate
 
         procstate.uninstall()
         procstate.install()  # one session: fresh process-local memo caches
+        # object identity behind a seam: handles and measurements released during the history hand
+        # their identities to later objects in a recorded order (sim/identity.py)
+        self.ident = IdentitySeam(case.get("identity", "fifo"), seed=case["hyp_seed"])
+        self.ident.__enter__()
         self.paths = scenes.copy_scene(tpl, os.path.join(root, "state"))
         with scenes.sequential_mode():
             # two live handles on every cache directory: state remembered on a handle must not
@@ -189,34 +298,20 @@ class Model:
         self.dirty: set[str] = set()
 
     # ---- fresh reference on data-only caches
-    def _fresh(self, key: tuple, fn):
+    def _fresh(self, key: tuple):
         if key not in self.fresh:
-            import yaw
-            from sim.isolate import run_isolated
-
-            tmp = tempfile.mkdtemp(prefix="fresh-", dir=os.path.dirname(self.root))
-
-            def compute():
-                # a forked child: no in-process state of the session under test is
-                # seen or left behind
-                paths = scenes.copy_scene(self.tpl, os.path.join(tmp, "s"))
-                with scenes.sequential_mode():
-                    cats = {n: yaw.Catalog(paths[n], max_workers=1) for n in scenes.CATS}
-                    try:
-                        return ("ok", fn(cats))
-                    except Exception as err:  # noqa: BLE001
-                        return ("raises", type(err).__name__)
-
-            try:
-                res = run_isolated(compute)
-                self.fresh[key] = res[1] if res[0] == "ok" else ("raises", res[1])
-            finally:
-                shutil.rmtree(tmp, ignore_errors=True)
+            # a child of the pristine zygote: no in-process state of the session under test is
+            # seen or left behind
+            res = self.zy.call("fresh", self.case, self.tpl, os.path.dirname(self.root), key)
+            self.fresh[key] = res[1] if res[0] == "ok" else ("raises", res[1])
         return self.fresh[key]
 
     def close(self) -> None:
         from sim import procstate
 
+        if self.ident.recycled:
+            self.rec.probe("identities_recycled")
+        self.ident.__exit__(None, None, None)
         procstate.uninstall()
         shutil.rmtree(self.root, ignore_errors=True)
 
@@ -229,6 +324,7 @@ class Model:
         if handle:
             self.rec.probe("second_handle_used")
         getattr(self, "op_" + op[0])(*op[1 : 1 + nargs])
+        self.ident.collect()  # released handles and measurements die now, their identities are free
         self._invariant(op)
         if self.outcomes[-1] == "started":
             self.outcomes[-1] = "ok"
@@ -298,8 +394,9 @@ class Model:
             return
         self._note_transition(name, None if b is None else (list(b[0]), b[1]))
 
-    def _measure(self, label: str, key: tuple, fn, workers: int = 1, seed: int = 0) -> None:
-        status, ref = self._fresh(key, lambda cats: fn(cats, 1))
+    def _measure(self, label: str, key: tuple, workers: int = 1, seed: int = 0) -> None:
+        fn = measure_fn(self.case, key)
+        status, ref = self._fresh(key)
         if any(v != "none" for v in self.last_binning.values()):
             self.rec.probe("measure_after_foreign_build")
         mw = None if workers > 1 else 1
@@ -327,21 +424,8 @@ class Model:
             )
 
     def op_cross(self, pool_idx: int, randoms: int, workers: int = 1, seed: int = 0) -> None:
-        import yaw
-
         edges, closed = POOL[pool_idx]
-        cfg = _config(edges, closed, self.case)
-
-        def fn(cats, mw):
-            rk = {}
-            if randoms & 1:
-                rk["ref_rand"] = cats["rref"]
-            if randoms & 2:
-                rk["unk_rand"] = cats["runk"]
-            cfs = yaw.crosscorrelate(cfg, cats["ref"], cats["unk"], max_workers=mw, **rk)
-            return [orc.corrfunc_state(cf) for cf in cfs]
-
-        self._measure("cross", ("cross", pool_idx, randoms), fn, workers, seed)
+        self._measure("cross", ("cross", pool_idx, randoms), workers, seed)
         for nm, b in (("ref", (list(edges), closed)), ("unk", None)):
             self._note_transition(nm, b)
         if randoms & 1:
@@ -350,30 +434,14 @@ class Model:
             self._note_transition("runk", None)
 
     def op_auto(self, pool_idx: int, which: int, workers: int = 1, seed: int = 0) -> None:
-        import yaw
-
         edges, closed = POOL[pool_idx]
-        cfg = _config(edges, closed, self.case)
         data, rand = (("ref", "rref"), ("unk", "runk"))[which]
-
-        def fn(cats, mw):
-            cfs = yaw.autocorrelate(cfg, cats[data], cats[rand], max_workers=mw)
-            return [orc.corrfunc_state(cf) for cf in cfs]
-
-        self._measure("auto", ("auto", pool_idx, which), fn, workers, seed)
+        self._measure("auto", ("auto", pool_idx, which), workers, seed)
         self._note_transition(data, (list(edges), closed))
         self._note_transition(rand, (list(edges), closed))
 
     def op_hist(self, name: str, pool_idx: int, workers: int = 1, seed: int = 0) -> None:
-        import yaw
-
-        edges, closed = POOL[pool_idx]
-        cfg = _config(edges, closed, self.case)
-
-        def fn(cats, mw):
-            return orc.sampled_state(yaw.HistData.from_catalog(cats[name], cfg, max_workers=mw))
-
-        self._measure("hist", ("hist", name, pool_idx), fn, workers, seed)
+        self._measure("hist", ("hist", name, pool_idx), workers, seed)
 
     def op_reopen(self, name: str, workers: int = 1, seed: int = 0) -> None:
         import yaw
@@ -384,49 +452,14 @@ class Model:
 
     # ---- invariant: cached trees equal a fresh build for the stored binning
     def _invariant(self, op: list) -> None:
-        """Evaluated in a forked child, so that reading the cached trees neither
-        sees nor alters in-process state of the session (memo caches)."""
-        from sim.isolate import run_isolated
-
-        res = run_isolated(lambda: self._invariant_problem(op))
+        """Evaluated by a new process (child of the zygote), so that reading the cached trees
+        neither sees nor alters in-process state of the session."""
+        res = self.zy.call("invariant", self.paths, sorted(self.dirty), self.ops, op)
         if res[0] != "ok":
             raise RuntimeError(f"invariant evaluation failed: {res}")
         if res[1] is not None:
             sig, detail = res[1]
             raise HistoryViolation(sig, detail)
-
-    def _invariant_problem(self, op: list):
-        from yaw.catalog.trees import BinnedTrees, build_trees
-
-        for name, cat in self.cats.items():
-            if name in self.dirty:
-                continue
-            for pid, patch in cat.items():
-                bfile = os.path.join(str(patch.cache_path), "binning")
-                if not os.path.exists(bfile):
-                    continue
-                try:
-                    bt = BinnedTrees(patch)
-                    cached = bt.trees
-                except Exception:  # noqa: BLE001 - unreadable cache is an error at next use, not silent
-                    continue
-                try:
-                    fresh = build_trees(patch, bt.binning, leafsize=16)
-                except Exception:  # noqa: BLE001
-                    continue
-                c = cached if isinstance(cached, tuple) else (cached,)
-                f = fresh if isinstance(fresh, tuple) else (fresh,)
-                ok = isinstance(cached, tuple) == isinstance(fresh, tuple) and len(c) == len(f) and all(
-                    a.num_records == b.num_records and a.sum_weights == b.sum_weights and np.array_equal(a.data, b.data)
-                    for a, b in zip(c, f)
-                )
-                if not ok:
-                    return (
-                        dict(property=PROP, failing_rule=op[0], outcome="stale_trees"),
-                        f"after {self.ops}: {name}/patch_{pid} stores binning {bt.binning} but its trees.pkl holds "
-                        f"{[t.num_records for t in c]} records per tree, a fresh build gives {[t.num_records for t in f]}",
-                    )
-        return None
 
 
 def draw_op(prng) -> list:
@@ -449,7 +482,7 @@ def draw_op(prng) -> list:
     return ["reopen", prng.choice(list(scenes.CATS)), w, seed, h]
 
 
-def _machine_factory(case: dict, tpl: str, root: str, fresh: dict, rec: Recorder):
+def _machine_factory(case: dict, tpl: str, root: str, fresh: dict, rec: Recorder, zy=None):
     from hypothesis import strategies as st
     from hypothesis.stateful import RuleBasedStateMachine, rule
 
@@ -463,7 +496,7 @@ def _machine_factory(case: dict, tpl: str, root: str, fresh: dict, rec: Recorder
         def __init__(self) -> None:
             super().__init__()
             self.dir = tempfile.mkdtemp(prefix="ex-", dir=root)
-            self.model = Model(case, tpl, self.dir, fresh, rec)
+            self.model = Model(case, tpl, self.dir, fresh, rec, zy)
 
         def _do(self, op):
             try:
@@ -505,6 +538,11 @@ def _machine_factory(case: dict, tpl: str, root: str, fresh: dict, rec: Recorder
 def run_case(case: dict) -> dict:
     import hashlib
 
+    from sim.isolate import Zygote
+
+    # forked before this process touches the library: reference computations and the on-disk
+    # invariant are evaluated by its children, i.e. by processes without any session state
+    zy = Zygote(ZYGOTE_HANDLERS)
     root = tempfile.mkdtemp(prefix="c07-", dir=wl.scratch_root())
     rec = Recorder()
     try:
@@ -515,20 +553,22 @@ def run_case(case: dict) -> dict:
         fresh: dict = {}
         violation = None
         if case.get("history") is not None:
-            model = Model(case, tpl, tempfile.mkdtemp(prefix="ex-", dir=root), fresh, rec)
+            model = Model(case, tpl, tempfile.mkdtemp(prefix="ex-", dir=root), fresh, rec, zy)
             try:
                 for op in case["history"]:
                     model.apply(op)
             except HistoryViolation as err:
                 violation = (list(model.ops), err)
+            finally:
+                model.ident.__exit__(None, None, None)
             rec.finish_example(model.ops, model.outcomes)
         elif producer() == "hypothesis":
-            err = run_machine(lambda: _machine_factory(case, tpl, root, fresh, rec), case["hyp_seed"], case["max_examples"], case["steps"])
+            err = run_machine(lambda: _machine_factory(case, tpl, root, fresh, rec, zy), case["hyp_seed"], case["max_examples"], case["steps"])
             if err is not None:
                 violation = rec.last_failure or ([], err)
         else:
             err = run_prng_producer(
-                lambda: Model(case, tpl, tempfile.mkdtemp(prefix="ex-", dir=root), fresh, rec),
+                lambda: Model(case, tpl, tempfile.mkdtemp(prefix="ex-", dir=root), fresh, rec, zy),
                 draw_op, case["hyp_seed"], case["max_examples"], case["steps"], rec,
             )
             if err is not None:
@@ -550,5 +590,6 @@ def run_case(case: dict) -> dict:
     finally:
         from sim import procstate
 
+        zy.close()
         procstate.uninstall()
         shutil.rmtree(root, ignore_errors=True)
